@@ -1529,7 +1529,7 @@ def inline_view(crate, body, depth=3, keep=(), policy=None, max_blocks=1500):
     names never inlined) are replaced by the helper's blocks.  Parameters of the helper become locals assigned
     from the arguments, its returns assign the call's destination.  Closures created inside an inlined helper
     keep pointing to the original helper as their parent."""
-    ck = ("inline_view", body.id, depth, tuple(sorted(keep)))
+    ck = ("inline_view", body.id, id(body) if hasattr(body, "origin") else 0, depth, tuple(sorted(keep)), None if policy is None else tuple(sorted(policy)))
     if ck in crate._cache:
         return crate._cache[ck]
     pol = default_inline_policy(crate) if policy is None else policy
